@@ -42,7 +42,13 @@ func Preset(prop string, adversarial bool, r *scen.Rand) *Params {
 	case "C01":
 		p.Alpha = Alpha{Plain: 4, Framing: 5, Structured: 2}
 		p.Envs = []map[string]string{envCI, envOff, envUpd, envClean}
-		p.EditKinds = []string{"shuffle"}
+		// (one world in four changes some values next to the unchanged ones: a neighbour that
+		// rewrites the shared file, concurrently in tasks mode, is no reason for a recorded and
+		// unchanged call to fail)
+		p.EditKinds = []string{"shuffle", "shuffle", "shuffle", "value"}
+		p.EditValueP = 0.3
+		p.TasksP = 0.2
+		p.FaultP = 0.06 // (a read-only snapshot file is no reason for a replay to fail)
 		p.RecordTasksP = 0.25
 		p.RecordCount = []int{1, 1, 2}
 		p.Counts = []int{1, 1, 2, 3} // replays with -count: every re-execution addresses the same slots
@@ -63,6 +69,7 @@ func Preset(prop string, adversarial bool, r *scen.Rand) *Params {
 		p.EditKinds = []string{"value"}
 		p.EditValueP = 0.6
 		p.TasksP = 0.25 // a mismatch must not pass silently under concurrency either
+		p.FaultP = 0.06 // ... nor next to disk faults, nor against a read-only file
 		p.ReplayP = 0.3
 	case "C03":
 		p.FaultP = 0.08 // a few worlds with disk faults: the narrow oracles of DESIGN.md 5.3 apply to the calls they hit
@@ -147,6 +154,8 @@ func Preset(prop string, adversarial bool, r *scen.Rand) *Params {
 		p.Alpha = Alpha{Plain: 10, Framing: 0, Structured: 1}
 		p.Envs = []map[string]string{envOff, envClean, envUpd, envCI}
 		p.EditKinds = []string{"skip", "removecall"}
+		p.TasksP = 0.3  // skips recorded by tests that run concurrently
+		p.FaultP = 0.08 // a file that cannot be written (or read) excuses that file only
 		p.RunP = 0.6
 		p.CleanP = 1
 		p.SortP = 0.3
@@ -214,6 +223,8 @@ func Preset(prop string, adversarial bool, r *scen.Rand) *Params {
 		p.Envs = allEnvs
 		p.UpdateOpt = 0.3
 		p.FaultP = 0.15 // a failing matcher is reported whatever state the disk is in
+		p.TasksP = 0.2  // matcher failures of parallel tests are reported to the right test
+		p.RaceP = 0.6
 		p.EditKinds = []string{"value"}
 		p.EditValueP = 0.4
 		p.ReplayP = 0.5
